@@ -93,7 +93,7 @@ PROPS = {
     "C14": {
         "jobs": lambda tier: both_builds("grammar", "grammar", 1500000 if tier != "thorough" else 100000000, 25 if tier != "thorough" else 600),
         "replay": replay_matcher("grammar"),
-        "rule": ("pattern strings of length 0-12 over letters, upper case, non-ASCII (cased, uncased, folding-lowercase, title case), every kind of whitespace, "
+        "rule": ("pattern strings of length 0-12 (one in 300: 1500-9000 characters, more than 1024 blanks) over letters, upper case, non-ASCII (cased, uncased, folding-lowercase, title case), every kind of whitespace, "
                  "backslash and the four markers, all CaseMatching x Normalization; reference grammar + ASCII->non-ASCII substitution metamorphic check + "
                  "escape round trip + reparse on a reused object; distinct_nontrivial = distinct pattern strings yielding at least one atom"),
         "require": {"any": {"c14.parsed": 1000, "c14.metamorphic": 500, "c14.escape-roundtrip": 1000, "c14.reparsed": 1000, "c14.sweep-parsed": 100000, "c14.parsed-with-multi-code-point-clusters": 1000, "c14.parsed-with-more-than-1024-blanks": 20}},
@@ -389,9 +389,9 @@ def worker_jobs(prop, with_asan=False):
     return jobs
 
 
-RULE_WORKER = ("scripted histories against a real Nucleo (threads 1/2/3/4/8/16, 1-3 columns): pushes/extends from the control thread and background burst threads, writers parked inside "
+RULE_WORKER = ("scripted histories against a real Nucleo (threads 1/2/3/4/8/16, now and then more than the hardware has, 65-134 or the library default; 1-5 columns): pushes/extends from the control thread and background burst threads, writers parked inside "
                "fill_columns (index reserved, not published), pattern edits typed character by character with truthful append flags (markers and escapes in last position), deletions, "
-               "replacements, ticks with timeouts 0..50 ms, restart(true|false), injector create/clone/drop; random driver with seeded delays at the verif points plus directed driver that "
+               "replacements, ticks with timeouts 0..50 ms, restart(true|false), injector create/clone/clone_from/drop; random driver with seeded delays at the verif points plus directed driver that "
                "pauses the worker at named phases (two writers in flight across a parallel scan, cancellation mid run, restart while paused / after an unobserved run / twice). "
                "Every snapshot after every tick is checked. distinct_nontrivial = distinct histories")
 
